@@ -51,7 +51,7 @@ impl BufferedCertifierService {
     //@ rewrite /\.await/ => //
     //@ rewrite /StdResult<SignatureRegistrationStatus>/ => /Result<SignatureRegistrationStatus, StdError>/
     //@ rewrite /error\.downcast_ref::<CertifierServiceError>\(\)/ => /downcast_ref(&error)/
-    //@ rewrite? /(?s)debug!\(.*?\);[ \t]*\n/ => //
+    //@ rewrite? /(?s)(?:slog::)?(?:debug|info|warn|trace|error)!\(.*?\);[ \t]*\n/ => //
     //@ spec ensures
     //@ spec     // Buffered ONLY when the decorated certifier found no open message and the submission was authenticated; then it is in the buffer
     //@ spec     ret is Ok && ret->Ok_0 is Buffered && !(inner_result(&self.certifier_service, signed_entity_type, signature) is Ok) ==>
